@@ -48,6 +48,7 @@ struct sim_thread {
 	const char *name;
 	uint64_t nhooks, spin_hooks;
 	int spin, slice;
+	uint64_t arm_ord; int arm_code;   // harness-placed stall: at this hook ordinal of this thread
 	uint64_t last_run;
 	uintptr_t stk_lo, stk_hi;
 	int prio;
@@ -451,8 +452,9 @@ static void hook_point(sim_thread *me, const volatile void *addr, int den) {
 	// loop whose descriptor stays ready) cannot starve the others; a pure function of the run, no tape entry
 	if (fair && ++me->slice >= 512) { me->slice = 0; reschedule(0); return; }
 	// injected stall: the thread sleeps for a span of simulated time at this very point
-	if (sim_k.stall_k || tape_replay) {
+	if (sim_k.stall_k || tape_replay || me->arm_ord) {
 		uint32_t code = 0;
+		if (me->arm_ord && me->arm_ord == me->nhooks) { code = (uint32_t)me->arm_code; me->arm_ord = 0; }
 		if (sim_k.strategy == STRAT_STALL)
 			for (int i = 0; i < sim_k.stall_k; i++)
 				if (sim_k.stall_tid[i] == me->id && sim_k.stall_ord[i] == me->nhooks) code = (uint32_t)sim_k.stall_code[i];
@@ -1006,6 +1008,14 @@ int sim_event_wait(sim_event *e, uint64_t timeout_ns) {
 		block(ST_EVENT, e, dl);
 	}
 	return 0;
+}
+// fault placement by the workload: stall the calling thread at its rel-th scheduling point from now (inside the
+// operation it is about to start); recorded on the tape like every other stall
+void sim_arm_stall(uint32_t rel, int code) {
+	if (!self || !active || fair || tape_replay) return;
+	if (code < 1) code = 1;
+	if (code >= NSTALLDUR) code = NSTALLDUR - 1;
+	self->arm_ord = self->nhooks + rel; self->arm_code = code;
 }
 void sim_set_fair(void) { fair = 1; }
 int sim_is_fair(void) { return fair; }
